@@ -634,6 +634,11 @@ class Interp:
                 return Ratio(ln * rn, ld * rd) if isinstance(e.op, ast.Mult) else Ratio(ln * rd, ld * rn)
             if isinstance(l, SymObject) and isinstance(e.op, ast.Mult) and hasattr(l, "mul"):
                 return l.mul(r)
+            if isinstance(l, TensorSym) and isinstance(e.op, ast.Mult) and self.depth < 5:
+                tcls = self.prog.find_cls("Tensor")
+                m_ = self.prog.lookup(tcls, "__mul__") if tcls is not None else None
+                if m_ is not None:
+                    return self.run_method(m_, l, [r], {})
             if isinstance(l, SymObject) or isinstance(r, SymObject):
                 raise Unknown("arithmetic on a library object")
             if isinstance(l, int) and isinstance(r, int) and not isinstance(l, bool) and not isinstance(r, bool) and isinstance(e.op, (ast.Add, ast.Sub, ast.Mult)):
@@ -712,6 +717,11 @@ class Interp:
                 return Opaque(f"attribute {e.attr} of the object")
             if isinstance(base, SymObject) and hasattr(base, e.attr):
                 return getattr(base, e.attr)
+            if isinstance(base, TensorSym) and self.depth < 5:
+                # a property the library defines in exactly one class (covariant_tensor / contravariant_tensor of LineTensor ...): interpreted
+                owners = [c for c in self.prog.classes.values() if e.attr in c.methods and c.methods[e.attr].is_property]
+                if len(owners) == 1:
+                    return self.run_method(owners[0].methods[e.attr], base, [], {})
             if isinstance(base, PointSym):
                 if e.attr == "normalized_array":
                     return base.normalized()
@@ -1532,6 +1542,14 @@ class Interp:
             for t in st.targets:
                 self.assign(t, v, env)
             return
+        if isinstance(st, ast.AnnAssign):
+            if st.value is not None:
+                try:
+                    v = self.ev(st.value, env)
+                except (Unknown, NotPolynomial) as ex:
+                    v = Opaque(str(ex))
+                self.assign(st.target, v, env)
+            return  # a bare annotation binds nothing
         if isinstance(st, ast.AugAssign):
             ops = {ast.Add: lambda a, b: a + b, ast.Sub: lambda a, b: a - b, ast.Mult: lambda a, b: a * b, ast.Div: _div}
             if type(st.op) not in ops:
@@ -2457,7 +2475,8 @@ class TensorSym(SymObject):
         return TensorSym(self.array, self.tensor_shape[0], self.tensor_shape[1], self.kinds, self.eps)
 
     def is_zero(self, *a, **k):
-        return False  # arguments in general position: no contraction vanishes identically (checked by the rule on the result)
+        # for arguments in general position a contraction is zero exactly when it vanishes identically
+        return all(x.is_zero() for x in self.array.data.values())
 
 
 def levi_civita(n: int, covariant: bool) -> TensorSym:
@@ -2572,16 +2591,34 @@ def rule_join_meet(run: Run, prog: Program) -> int:
         kinds = set(point_kinds) if point else ({"SubspaceTensor", "Subspace", "Tensor", "ProjectiveTensor"} | ({"LineTensor", "Line"} if n == 3 else {"PlaneTensor", "Plane"}))
         return TensorSym(t, 1 if point else 0, 0 if point else 1, kinds)
 
-    def call(args: list) -> TensorSym:
+    def tensor_ctor(a_, k_):
+        t = a_[0] if a_ else None
+        if not isinstance(t, Table):
+            return Opaque("tensor")
+        cov = k_.get("covariant", True)
+        rank = len(t.shape)
+        if cov is True:
+            return TensorSym(t, rank, 0)
+        if cov is False:
+            return TensorSym(t, 0, rank)
+        return Opaque("tensor with mixed index types")
+
+    def call(args: list, pivots: list | None = None, flags: dict | None = None) -> TensorSym:
+        pivots = list(pivots or [])
         it = Interp(prog, None, {})
         it.generic = True
         it.hooks = {"LeviCivitaTensor": lambda a_, k_: levi_civita(a_[0], a_[1] if len(a_) > 1 else k_.get("covariant", True))
                     if a_ and isinstance(a_[0], int) and isinstance(a_[1] if len(a_) > 1 else k_.get("covariant", True), bool) else Opaque("eps"),
                     "TensorDiagram": lambda a_, k_: SymDiagram([tuple(x) for x in a_]) if all(isinstance(x, (list, tuple)) and len(x) == 2 for x in a_) else Opaque("diagram"),
-                    "from_tensor": lambda a_, k_: a_[-1], "_divide_by_power_of_two": lambda a_, k_: a_[0], "max": lambda a_, k_: Opaque("max"), "frexp": lambda a_, k_: Opaque("frexp")}
+                    "from_tensor": lambda a_, k_: a_[-1], "_divide_by_power_of_two": lambda a_, k_: a_[0], "max": lambda a_, k_: Opaque("max"), "frexp": lambda a_, k_: Opaque("frexp"),
+                    "is_numerical_scalar": lambda a_, k_: isinstance(a_[0], (int, LP)) and not isinstance(a_[0], bool),
+                    "Tensor": lambda a_, k_: tensor_ctor(a_, k_), "argmax": lambda a_, k_: pivots.pop(0) if pivots else Opaque("argmax"),
+                    "isscalar": lambda a_, k_: isinstance(a_[0], (bool, int, LP))}
         env = {params.vararg.arg: list(args)}
+        if flags:
+            env.update(flags)
         for kwarg, d in zip(params.kwonlyargs, params.kw_defaults):
-            if d is not None:
+            if d is not None and kwarg.arg not in env:
                 env[kwarg.arg] = it.ev(d, {})
         try:
             it.block(fn.node.body, env)
@@ -2662,6 +2699,56 @@ def rule_join_meet(run: Run, prog: Program) -> int:
             run.add("E19.join", fn.short, label, PROVEN, "in both argument orders the point lies in the plane and on the line through p and q, and is not identically zero", fn.loc)
     except (Unknown, NotPolynomial, RecursionError) as ex:
         run.add("E19.join", fn.short, label, UNDECIDED, f"not read: {str(ex)[:110]}", fn.loc)
+    line_kinds = {"SubspaceTensor", "Subspace", "Tensor", "ProjectiveTensor", "LineTensor", "Line"}
+
+    def on_plane(plane: TensorSym, pts: list) -> bool:
+        return plane.array.shape == (4,) and plane.tensor_shape == (0, 1) and not all(x.is_zero() for x in plane.array.data.values()) \
+            and all(dot(plane, p__).is_zero() for p__ in pts)
+
+    # the line join(p, q) of 3-space joined with a third point: the plane through the three points, in both argument orders
+    n_ob += 1
+    label = "join of the line join(p, q) with a point of 3-space"
+    try:
+        p_, q_, r_ = obj("p", 4, True), obj("q", 4, True), obj("r", 4, True)
+        line = call([p_, q_])
+        line.kinds = set(line_kinds)
+        ok = on_plane(call([line, r_]), [p_, q_, r_]) and on_plane(call([r_, line]), [p_, q_, r_])
+        run.add("E19.join", fn.short, label, PROVEN if ok else VIOLATION,
+                "in both argument orders the result is a plane through p, q and r" if ok else "the result is not the plane through p, q and r", fn.loc)
+    except (Unknown, NotPolynomial, RecursionError) as ex:
+        run.add("E19.join", fn.short, label, UNDECIDED, f"not read: {str(ex)[:110]}", fn.loc)
+    # two coplanar lines join(p, q), join(p, r) of 3-space (the branch after Blinn): for every pivot the argmax can select,
+    # their meet is p and their join is the plane through p, q, r
+    n_ob += 1
+    label = "meet and join of the coplanar lines join(p, q), join(p, r) of 3-space"
+    try:
+        p_, q_, r_ = obj("p", 4, True), obj("q", 4, True), obj("r", 4, True)
+        l1, l2 = call([p_, q_]), call([p_, r_])
+        l1.kinds, l2.kinds = set(line_kinds), set(line_kinds)
+        decided = 0
+        problems = []
+        for flat in range(64):
+            for intersect in (True, False):
+                try:
+                    res = call([l1, l2], pivots=[flat], flags={"intersect_lines": intersect})
+                except Unknown:
+                    continue
+                if all(x.is_zero() for x in res.array.data.values()):
+                    continue  # a pivot whose entry vanishes cannot have been the largest one
+                decided += 1
+                if intersect:
+                    if not (res.array.shape == (4,) and res.tensor_shape == (1, 0) and prop_to(res, p_)):
+                        problems.append(f"pivot {flat}: the meet is not the common point p")
+                elif not on_plane(res, [p_, q_, r_]):
+                    problems.append(f"pivot {flat}: the join is not the plane through p, q and r")
+        if problems:
+            run.add("E19.join", fn.short, label, VIOLATION, f"{len(problems)} of {decided} cases: " + "; ".join(problems[:2]), fn.loc)
+        elif decided:
+            run.add("E19.join", fn.short, label, PROVEN, f"{decided} cases (every pivot the argmax can select, meet and join): the meet is p, the join is the plane through p, q and r", fn.loc)
+        else:
+            run.add("E19.join", fn.short, label, UNDECIDED, "no pivot gave a result that could be read", fn.loc)
+    except (Unknown, NotPolynomial, RecursionError) as ex:
+        run.add("E19.join", fn.short, label, UNDECIDED, f"not read: {str(ex)[:110]}", fn.loc)
     # round trips in the plane
     for label, point in (("meet(join(p, q), join(p, r)) is p", True), ("join(meet(l, m), meet(l, n)) is l", False)):
         n_ob += 1
@@ -2682,7 +2769,7 @@ def rule_join_meet(run: Run, prog: Program) -> int:
 
 # ---------------------------------------------------------------------------------------------- parallels and mirror images (C10)
 def rule_metric_constructions(run: Run, prog: Program) -> int:
-    run.rule("E19.metric", "SubspaceTensor.parallel for a line of the plane, and LineTensor.mirror in the plane, interpreted on symbolic "
+    run.rule("E19.metric", "SubspaceTensor.parallel for a line of the plane and a plane of 3-space, and LineTensor.mirror in the plane, interpreted on symbolic "
                            "coordinates (join / meet through the interpreted duality dispatcher, the circular points and the line at infinity read from the module, "
                            "i^2 = -1): the parallel passes through the point and has the direction resp. the normal of the subspace; the mirror image is the "
                            "Cartesian reflection (x, y) - 2 (a x + b y + c) / (a^2 + b^2) (a, b)")
@@ -2758,7 +2845,7 @@ def rule_metric_constructions(run: Run, prog: Program) -> int:
     fn_par = prog.lookup(sub, "parallel")
     if fn_par is not None:
         fn_par = prog.body_of(fn_par)
-        for n, what in ((3, "line of the plane"),):  # a plane of 3-space meets the plane at infinity in a line (2-tensor branch): not in the vocabulary
+        for n, what in ((3, "line of the plane"), (4, "plane of 3-space")):
             n_ob += 1
             label = f"parallel to a {what} through a point"
             s_, p_ = obj("s", n, False), obj("p", n, True)
